@@ -2,6 +2,7 @@ CONSTANTS
   Angles <- AngQ
   SampleSets <- Samples
   MaxOps = 3
+  SplitKeepsOrientation = TRUE
   Export = TRUE
 INIT Init
 NEXT Next
